@@ -504,20 +504,29 @@ Print Assumptions C05_equality_exclusion_matches_source.
    has — to what `#field` gave where `inputs` was the captured value (lit_roundtrip does the work). *)
 Require Import Blots.proofs.EmitInRef.
 Theorem C05_input_reference_emission : forall release binop_impl apply n d sc f v c0 c,
-  rec_get sc "inputs"%string = Some v -> emittable_gen v = true ->
+  rec_get sc "inputs"%string = Some v -> emittable_gen v = true -> both_quotes f = false ->
   lookup (snd c0) "inputs"%string = Some v ->
-  subst d (scope_map n d sc) (EInRef f) = subst d (scope_map n d sc) (EDot (EId "inputs"%string) f) /\
+  (* the emitted form: `<inputs>.f`, exactly what `inputs.f` emits — or, for a field spelled like a reserved
+     word, which cannot follow `.`, the index `<inputs>["f"]`, exactly what `inputs["f"]` emits *)
+  (is_valid_identifier f = true ->
+   subst d (scope_map n d sc) (EInRef f) = subst d (scope_map n d sc) (EDot (EId "inputs"%string) f)) /\
+  (is_valid_identifier f = false ->
+   subst d (scope_map n d sc) (EInRef f) = subst d (scope_map n d sc) (EAccess (EId "inputs"%string) (str_to_ast f))) /\
+  (* the same VALUE always, in every configuration *)
   evalE release binop_impl apply c (subst d (scope_map n d sc) (EInRef f)) =
     (fst (evalE release binop_impl apply c0 (EInRef f)), c).
 Proof.
-  intros release binop_impl apply n d sc f v c0 c Hsc Hem Hin. split.
-  - exact (proj2 (subst_inref n d sc f v Hsc)).
-  - exact (inref_emission_sound release binop_impl apply n d sc f v c0 c Hsc Hem Hin).
+  intros release binop_impl apply n d sc f v c0 c Hsc Hem Hq Hin.
+  destruct (subst_inref n d sc f v Hsc) as (_ & A & B). split; [exact A|split; [exact B|]].
+  exact (inref_emission_sound release binop_impl apply n d sc f v c0 c Hsc Hem Hq Hin).
 Qed.
 Check C05_input_reference_emission : forall release binop_impl apply n d sc f v c0 c,
-  rec_get sc "inputs"%string = Some v -> emittable_gen v = true ->
+  rec_get sc "inputs"%string = Some v -> emittable_gen v = true -> both_quotes f = false ->
   lookup (snd c0) "inputs"%string = Some v ->
-  subst d (scope_map n d sc) (EInRef f) = subst d (scope_map n d sc) (EDot (EId "inputs"%string) f) /\
+  (is_valid_identifier f = true ->
+   subst d (scope_map n d sc) (EInRef f) = subst d (scope_map n d sc) (EDot (EId "inputs"%string) f)) /\
+  (is_valid_identifier f = false ->
+   subst d (scope_map n d sc) (EInRef f) = subst d (scope_map n d sc) (EAccess (EId "inputs"%string) (str_to_ast f))) /\
   evalE release binop_impl apply c (subst d (scope_map n d sc) (EInRef f)) =
     (fst (evalE release binop_impl apply c0 (EInRef f)), c).
 Print Assumptions C05_input_reference_emission.
@@ -560,4 +569,38 @@ Example C05_F54_repaired :
   end /\
   subst true [("inputs"%string, ENull)] (ELam [AReq "inputs"%string] (EInRef "rate"%string)) =
     ELam [AReq "inputs"%string] (EInRef "rate"%string).
+Proof. vm_compute. repeat split. Qed.
+
+(* a field spelled like a reserved word: `#if` parses, `{..}.if` does not; emitted as an index.  With inputs
+   {"if": 2, rate: 3}: `x => x * #if + #rate` is emitted as (x) => x * {"if": 2, rate: 3}["if"] + {"if": 2, rate: 3}.rate
+   and the reloaded function applied to 5 in a program without those inputs gives 13, as the original does *)
+Definition f54r_inputs : value := VRec [("if"%string, VNum (num_of_Z 2)); ("rate"%string, VNum (num_of_Z 3))].
+Definition f54r_lit : expr :=
+  ERec [Cm [] (REntry (KStatic "if"%string) (ENum (num_of_Z 2))) None;
+        Cm [] (REntry (KStatic "rate"%string) (ENum (num_of_Z 3))) None].
+Definition f54r_lam : expr :=
+  ELam [AReq "x"%string] (EBin Add (EBin Multiply (EId "x"%string) (EInRef "if"%string)) (EInRef "rate"%string)).
+Example C05_F54_reserved_word_field :
+  is_valid_identifier "if"%string = false /\ is_valid_identifier "rate"%string = true /\
+  let r := evalD true binop_impl builtin_impl 4 ([], [(FOwned, [("inputs"%string, f54r_inputs)])]) f54r_lam in
+  match fst r with
+  | Ok fv =>
+      emit_ast true true fv =
+        Some (ELam [AReq "x"%string]
+                (EBin Add (EBin Multiply (EId "x"%string) (EAccess f54r_lit (EStr "if"%string)))
+                          (EDot f54r_lit "rate"%string))) /\
+      match emit_ast true true fv with
+      | Some e =>
+          match reload_ast 0%nat e with
+          | Some g =>
+              fst (evalD true binop_impl builtin_impl 4 ([None], [(FOwned, [("g"%string, g)])])
+                     (ECall (EId "g"%string) [ENum (num_of_Z 5)])) = Ok (VNum (num_of_Z 13)) /\
+              fst (evalD true binop_impl builtin_impl 4 (snd r)
+                     (ECall f54r_lam [ENum (num_of_Z 5)])) = Ok (VNum (num_of_Z 13))
+          | None => False
+          end
+      | None => False
+      end
+  | _ => False
+  end.
 Proof. vm_compute. repeat split. Qed.
